@@ -513,3 +513,62 @@ func SortedKeys[V any](m map[string]V) []string {
 	sort.Strings(ks)
 	return ks
 }
+
+// ---- unbiased draws -----------------------------------------------------
+// rapid's integer generators favour small magnitudes and range ends (about a
+// third of IntRange(0,99) draws are below 5), which badly skews "with
+// probability p" choices. These helpers build the value from fair coin flips;
+// shrinking moves towards 0 / false / the first element.
+
+// Uniform draws an integer uniformly from [0, n).
+func Uniform(t *rapid.T, label string, n int) int {
+	if n <= 1 {
+		return 0
+	}
+	bits := 8
+	for (1 << uint(bits-7)) < n {
+		bits++
+	}
+	v := 0
+	for i := 0; i < bits; i++ {
+		v <<= 1
+		if rapid.Bool().Draw(t, label) {
+			v |= 1
+		}
+	}
+	return v % n
+}
+
+// Pct is true with probability pct/100 (fair).
+func Pct(t *rapid.T, label string, pct int) bool {
+	return Uniform(t, label, 100) < pct
+}
+
+// PickU picks an element uniformly.
+func PickU[T any](t *rapid.T, label string, xs []T) T {
+	return xs[Uniform(t, label, len(xs))]
+}
+
+// Weighted picks an index with probability proportional to its weight.
+func Weighted(t *rapid.T, label string, weights []int) int {
+	total := 0
+	for _, w := range weights {
+		total += w
+	}
+	if total <= 0 {
+		return 0
+	}
+	r := Uniform(t, label, total)
+	for i, w := range weights {
+		if r < w {
+			return i
+		}
+		r -= w
+	}
+	return len(weights) - 1
+}
+
+// Range draws an integer uniformly from [lo, hi].
+func Range(t *rapid.T, label string, lo, hi int) int {
+	return lo + Uniform(t, label, hi-lo+1)
+}
